@@ -171,6 +171,9 @@ func (r *runner) errTok(e goja.Value, goErr error) string {
 			return r.errTok(ex.Value(), nil)
 		}
 		msg := goErr.Error()
+		if i := strings.Index(msg, "HOSTFAIL:"); i >= 0 {
+			return "thrown:" + hs(strings.SplitN(msg[i+9:], ":", 2)[0])
+		}
 		if strings.Contains(msg, "LOADERR") {
 			return "loaderr"
 		}
@@ -191,6 +194,9 @@ func (r *runner) errTok(e goja.Value, goErr error) string {
 		msg := ""
 		if m := o.Get("message"); m != nil {
 			msg = m.String()
+		}
+		if i := strings.Index(msg, "HOSTFAIL:"); i >= 0 {
+			return "thrown:" + hs(strings.SplitN(msg[i+9:], ":", 2)[0])
 		}
 		switch {
 		case strings.Contains(msg, "Invalid module"):
@@ -254,7 +260,11 @@ func bodySource(f fileSpec) string {
 				fmt.Fprintf(&sb, "{ var m = require(%s); __got(%s, m); }\n", jsString(abs(a.A)), jsString(a.A))
 			}
 		case "T":
-			fmt.Fprintf(&sb, "throw __mkthrow(%s);\n", jsString(a.A))
+			if strings.HasPrefix(a.A, "N") {
+				fmt.Fprintf(&sb, "__hostfail(%s);\n", jsString(a.A))
+			} else {
+				fmt.Fprintf(&sb, "throw __mkthrow(%s);\n", jsString(a.A))
+			}
 		}
 	}
 	return sb.String()
@@ -366,6 +376,9 @@ func execCase(c reqCase) (out string) {
 		o.Set("__tok", tok)
 		r.thrown[tok] = o
 		return o
+	})
+	vm.Set("__hostfail", func(tok string) error {
+		return fmt.Errorf("HOSTFAIL:%s: %w", tok, require.ModuleFileDoesNotExistError)
 	})
 	vm.Set("__topok", func(m goja.Value) {
 		tags := r.tagsOf(m)
@@ -503,6 +516,16 @@ func (g *gen) spelling(fromDir string, relRoot bool) string {
 	}
 }
 
+// throwTok: most bodies throw a JavaScript object; one in seven fails in a host function whose Go error wraps the
+// loader's own "module file does not exist" sentinel (the thrown value is then a GoError)
+func (g *gen) throwTok() string {
+	if g.r.Chance(14) {
+		g.st.Hit("throw:host-error-wrapping-not-exist")
+		return fmt.Sprintf("N%d", g.r.Intn(1000))
+	}
+	return fmt.Sprintf("T%d", g.r.Intn(1000))
+}
+
 func (g *gen) body(dir string, relRoot bool) []act {
 	r := g.r
 	n := r.Intn(5)
@@ -516,7 +539,7 @@ func (g *gen) body(dir string, relRoot bool) []act {
 		case x < 88:
 			b = append(b, act{K: "R", A: g.spelling(dir, relRoot), C: r.Chance(45)})
 		default:
-			b = append(b, act{K: "T", A: fmt.Sprintf("T%d", r.Intn(1000))})
+			b = append(b, act{K: "T", A: g.throwTok()})
 			return b
 		}
 	}
@@ -733,7 +756,7 @@ func (g *gen) genCase() reqCase {
 			b = append(b, act{K: "S", A: "t1"})
 			pos := r.Intn(3)
 			if k == thrower && pos == 0 {
-				b = append(b, act{K: "T", A: fmt.Sprintf("T%d", r.Intn(1000))})
+				b = append(b, act{K: "T", A: g.throwTok()})
 			}
 			b = append(b, act{K: "R", A: spell((k + 1) % n), C: r.Chance(30)})
 			if r.Chance(50) {
@@ -746,11 +769,11 @@ func (g *gen) genCase() reqCase {
 				}
 			}
 			if k == thrower && pos == 1 {
-				b = append(b, act{K: "T", A: fmt.Sprintf("T%d", r.Intn(1000))})
+				b = append(b, act{K: "T", A: g.throwTok()})
 			}
 			b = append(b, act{K: "S", A: "t2"})
 			if k == thrower && pos == 2 {
-				b = append(b, act{K: "T", A: fmt.Sprintf("T%d", r.Intn(1000))})
+				b = append(b, act{K: "T", A: g.throwTok()})
 			}
 			p := path.Clean(d + "/" + names[k] + ".js")
 			if !have[p] {
